@@ -1,5 +1,6 @@
 // C19: nd_map visits every index tuple of the box exactly once and nothing else
 #include "vf.h"
+#include <covfie/core/array.hpp>
 #include <covfie/core/utility/nd_map.hpp>
 #include <covfie/core/utility/nd_size.hpp>
 using namespace covfie;
@@ -34,6 +35,39 @@ template <size_t D, size_t B> static void ndmap_h()
     vf_assert(vf_heap_live() == live0, 3);           // closures released
     vf_observe_u64(total);
     vf_observe_u64(count);
+}
+
+// the same with a narrow index type I for the tuples (nd_map is a template over the tuple type): fixed extents whose
+// product does not fit I (16 x 16 in uint8_t, ...); the probe tuple is symbolic
+template <class I, size_t D, size_t E0, size_t E1, size_t E2 = 1, size_t E3 = 1> static void ndmap_typed_h()
+{
+    using T = covfie::array::array<I, D>;
+    constexpr size_t ext[4] = {E0, E1, E2, E3};
+    T e;
+    size_t p[D];
+    bool inside = true;
+    size_t prod = 1;
+    for (size_t k = 0; k < D; k++) {
+        e[k] = static_cast<I>(ext[k]);
+        prod *= ext[k];
+        p[k] = vf_nondet_u64();
+        inside = inside && p[k] < ext[k];
+    }
+    size_t count = 0, total = 0;
+    size_t live0 = vf_heap_live();
+    utility::nd_map<T>(
+        [&count, &total, &p](T t) {
+            bool eq = true;
+            for (size_t k = 0; k < D; k++) eq = eq && static_cast<size_t>(t[k]) == p[k];
+            if (eq) ++count;
+            ++total;
+        },
+        e
+    );
+    vf_assert(count == (inside ? 1u : 0u), 1);
+    vf_assert(total == prod, 2);
+    vf_assert(vf_heap_live() == live0, 3);
+    vf_observe_u64(total);
 }
 
 // for ALL extent vectors with every extent >= 1 (unbounded, 64-bit): the walk starts, and it starts at the origin.
